@@ -54,7 +54,21 @@ type World struct {
 	Fail  map[string]bool
 	Delay map[string]time.Duration
 	Gates map[string]chan struct{} // optional: a probe waits for its gate
+	ended map[string]chan struct{} // closed when the probe has returned for the first time
 	mu    sync.Mutex
+}
+
+// EndedCh returns a channel that is closed once probe id has ended.
+func (wd *World) EndedCh(id string) chan struct{} {
+	wd.mu.Lock()
+	defer wd.mu.Unlock()
+	if wd.ended == nil {
+		wd.ended = map[string]chan struct{}{}
+	}
+	if wd.ended[id] == nil {
+		wd.ended[id] = make(chan struct{})
+	}
+	return wd.ended[id]
 }
 
 // NewWorld boots an application; input is the terminal input (may be empty).
@@ -109,6 +123,11 @@ func NewWorld(w io.Writer, input string, args []string) (*World, error) {
 				time.Sleep(delay)
 			}
 			wd.Log.Emit(map[string]interface{}{"ev": "end", "id": args.ID, "fail": fail})
+			select {
+			case <-wd.EndedCh(args.ID):
+			default:
+				close(wd.EndedCh(args.ID))
+			}
 			if fail {
 				return fmt.Errorf("probe %s fails", args.ID)
 			}
